@@ -15,7 +15,7 @@ import (
 func init() {
 	Registry["C10"] = C10
 	Metas["C10"] = Meta{
-		Explanation: "Decides the structural clauses of C10: (H1) every found-path of the lock-free readers and of the compute core (hit under lock, call of the user function with loaded=true) is dominated by the true edge of a Go == between the stored key and the lookup key - a hash-byte or top-hash match alone is never a hit, so colliding keys cannot alias; (H2) every call of the runtime type-hash primitive receives a pair (type descriptor of X, pointer to a variable of static type X) for one and the same X: descriptors are traced to the type word of an interface built from a value of static non-interface type X or to the data word of a reflect.Type describing X, pointers to the address of a variable of type X; the data word of an interface header is NOT accepted as a pointer to the dynamic value (for pointer-shaped dynamic types it is the value itself) - this is what makes interface-kinded, pointer, nil and padded keys hash like == compares; (H3) the byte-wise memory hash is used only for strings, with the data pointer and length of one and the same string - never for generic keys (+0/-0, padding, nested strings would break ==); (H4) the hash that selects the root bucket and the bucket-local byte is the map's hasher applied to the lookup key with the attempt's table seed, and the resize copy re-hashes the stored key with the map's own hasher; (H5) no explicit panic is reachable from the public API (each is in a branch that is dead under every constant mode, or guarded by a flag that is never set). NOT decided: correctness of the runtime's typehash itself; NaN keys (excluded by the property).",
+		Explanation: "Decides the structural clauses of C10: (H1) every found-path of the lock-free readers and of the compute core (hit under lock, call of the user function with loaded=true) is dominated by the true edge of a Go == between the stored key and the lookup key - a hash-byte or top-hash match alone is never a hit, so colliding keys cannot alias; (H2) every call of the runtime type-hash primitive receives a pair (type descriptor of X, pointer to a variable of static type X) for one and the same X: descriptors are traced to the type word of an interface built from a value of static non-interface type X or to the data word of a reflect.Type describing X, pointers to the address of a variable of type X; the data word of an interface header is NOT accepted as a pointer to the dynamic value (for pointer-shaped dynamic types it is the value itself) - this is what makes interface-kinded, pointer, nil and padded keys hash like == compares; (H3) the byte-wise memory hash is used only for strings, with the data pointer and length of one and the same string - never for generic keys (+0/-0, padding, nested strings would break ==), and a hash function for generic keys reads the key's raw bits (an unsafe integer reinterpretation) only when it is handed out under reflect.Kind tests for kinds whose == is bit equality (booleans, integers, pointers, channels); (H4) the hash that selects the root bucket and the bucket-local byte is the map's hasher applied to the lookup key with the attempt's table seed, and the resize copy re-hashes the stored key with the map's own hasher; (H5) no explicit panic is reachable from the public API (each is in a branch that is dead under every constant mode, or guarded by a flag that is never set). NOT decided: correctness of the runtime's typehash itself; NaN keys (excluded by the property).",
 		Rule:        "one obligation per (rule, call site | exit | panic site); non-trivial = decided from value provenance traces, dominance or explored core paths",
 		Assumptions: []string{"runtime.typehash(t, p, seed) hashes the value of type t stored at p consistently with == (as the builtin map does)"},
 	}
@@ -28,6 +28,7 @@ func C10(r *Run) *core.Report {
 	}
 	c10H1(r, rep)
 	c10H2H3(r, rep)
+	c10H3raw(r, rep)
 	c10H4(r, rep)
 	c10H5(r, rep)
 	// H6: a stored entry lands in the slot that was matched or found free for *this* key - never in a slot of another
@@ -1030,4 +1031,109 @@ func nilFuncArgEdge(f *ssa.Function, b *ssa.BasicBlock) bool {
 		return p.Succs[edge] == b
 	}
 	return false
+}
+
+// c10H3raw: a hash function for generic keys (func(K, uint64) uint64 with K a type parameter) never takes the raw bits
+// of the key as hash input - reading the key through an unsafe reinterpretation as an integer - unless the function is
+// only handed out for key kinds whose == is equality of exactly those bits (booleans, integers, pointers, channels).
+// For floats (+0 == -0, different bits), complex numbers, strings, interfaces, structs and arrays, bits-equal is not
+// ==: equal keys would hash differently under the same seed and become two keys.
+func c10H3raw(r *Run, rep *core.Report) {
+	bitsOK := map[int64]string{1: "Bool", 2: "Int", 3: "Int8", 4: "Int16", 5: "Int32", 6: "Int64", 7: "Uint", 8: "Uint8", 9: "Uint16", 10: "Uint32", 11: "Uint64", 12: "Uintptr", 18: "Chan", 22: "Pointer", 26: "UnsafePointer"}
+	kindName := map[int64]string{13: "Float32", 14: "Float64", 15: "Complex64", 16: "Complex128", 17: "Array", 19: "Func", 20: "Interface", 21: "Map", 23: "Slice", 24: "String", 25: "Struct"}
+	for _, f := range r.P.Funcs {
+		if f.Pkg != r.P.Xsync || f.Blocks == nil || len(f.Params) != 2 || f.Signature.Results().Len() != 1 {
+			continue
+		}
+		if _, isTP := f.Params[0].Type().(*types.TypeParam); !isTP {
+			continue
+		}
+		if b, ok := f.Params[1].Type().Underlying().(*types.Basic); !ok || b.Kind() != types.Uint64 {
+			continue
+		}
+		// raw reads: *(*uintN)(unsafe.Pointer(&key))
+		var raw ssa.Instruction
+		core.Instrs(f, func(in ssa.Instruction) {
+			ld, ok := in.(*ssa.UnOp)
+			if !ok || ld.Op != token.MUL {
+				return
+			}
+			cv, ok := ld.X.(*ssa.Convert)
+			if !ok {
+				return
+			}
+			bt, isB := elemOf(cv.Type()).Underlying().(*types.Basic)
+			if !isB || bt.Info()&(types.IsInteger|types.IsFloat|types.IsComplex|types.IsBoolean) == 0 {
+				return
+			}
+			src := core.StripConv(cv.X)
+			cell, isCell := src.(*ssa.Alloc)
+			if !isCell {
+				return
+			}
+			if st := uniqueStore(cell); st != nil && st.Val == ssa.Value(f.Params[0]) {
+				raw = in
+			}
+		})
+		if raw == nil {
+			continue
+		}
+		cons := fn(f) + " raw bits of the key"
+		par := f.Parent()
+		if par == nil {
+			rep.Fail("C10.H3", cons, r.P.InstrPos(raw), "a hash function for generic keys reads the raw bits of the key: for key types whose == is not bit equality (floats: +0 == -0) equal keys hash differently and become two keys")
+			continue
+		}
+		// where the function is handed out, and under which reflect kinds
+		var made []ssa.Instruction
+		core.Instrs(par, func(in ssa.Instruction) {
+			// (a literal that captures nothing is used as a plain function value, not through MakeClosure)
+			for _, op := range in.Operands(nil) {
+				if op != nil && *op == ssa.Value(f) {
+					made = append(made, in)
+					return
+				}
+			}
+		})
+		okAll := len(made) > 0
+		why := "the function is handed out without a test of the key type's kind"
+		for _, m := range made {
+			var kinds []int64
+			core.Instrs(par, func(in ssa.Instruction) {
+				iff, ok := in.(*ssa.If)
+				if !ok {
+					return
+				}
+				bo, ok := iff.Cond.(*ssa.BinOp)
+				if !ok || bo.Op != token.EQL {
+					return
+				}
+				for _, pair := range [][2]ssa.Value{{bo.X, bo.Y}, {bo.Y, bo.X}} {
+					k, isK := core.ConstInt(pair[1])
+					c, isCall := core.StripConv(pair[0]).(*ssa.Call)
+					if !isK || !isCall || !(c.Call.IsInvoke() && c.Call.Method.Name() == "Kind" || core.CalleeID(c) == "(*reflect.rtype).Kind") {
+						continue
+					}
+					t := iff.Block().Succs[0]
+					if t == m.Block() || t.Dominates(m.Block()) || blockReachUntil(t, nil)[m.Block()] && !blockReachUntil(iff.Block().Succs[1], nil)[m.Block()] {
+						kinds = append(kinds, k)
+					} else if blockReachUntil(t, nil)[m.Block()] {
+						// one of several case values leading to the same body
+						kinds = append(kinds, k)
+					}
+				}
+			})
+			if len(kinds) == 0 {
+				okAll = false
+				continue
+			}
+			for _, k := range kinds {
+				if _, good := bitsOK[k]; !good {
+					okAll = false
+					why = "the function is handed out for keys of kind " + kindName[k] + ", whose == is not equality of the value's bits"
+				}
+			}
+		}
+		rep.Check(okAll, "C10.H3", cons, r.P.InstrPos(raw), "raw bits are hashed only for kinds whose == is bit equality", "a hash function for generic keys takes the raw bits of the key as hash input and "+why+": equal keys (+0 and -0) hash differently under one seed and become two keys")
+	}
 }
